@@ -255,6 +255,33 @@ def oracle(t):
         if x.to_nanoseconds() != v:
             return {"key": "dur-to-nanoseconds", "what": f"to_nanoseconds {x.to_nanoseconds()} != {v}"}
         return None
+    if op == "dur.small":
+        x = dur(a[0], a[1])
+        v = a[0] * NPD + a[1]
+        if abs(a[2]) <= NPD:
+            f = _expect_dur(lambda: x._plus_small_nanoseconds(a[2]), v + a[2], f"Duration{(a[0], a[1])}._plus_small_nanoseconds({a[2]})")
+            if f:
+                return f
+            return _expect_dur(lambda: x._minus_small_nanoseconds(a[2]), v - a[2], f"Duration{(a[0], a[1])}._minus_small_nanoseconds({a[2]})")
+        return None
+    if op in ("inst.safeplus", "linst.safeminus"):
+        v = a[0] * NPD + a[1]
+        if not (IMIN <= a[0] <= IMAX):
+            return None
+        if op == "inst.safeplus":
+            r = inst(a[0], a[1])._safe_plus(O.from_seconds(a[2]))
+            e = v + a[2] * 10**9
+        else:
+            from pyoda_time._local_instant import _LocalInstant
+            r = _LocalInstant._ctor(days=a[0], nano_of_day=a[1])._safe_minus(O.from_seconds(a[2]))
+            e = v - a[2] * 10**9
+        d, n = r._days_since_epoch, r._nanosecond_of_day
+        if INST_MIN_NS <= e <= INST_MAX_NS:
+            if not (0 <= n < NPD) or d * NPD + n != e:
+                return {"key": "safe-offset-arith", "what": f"{op} {a}: got (days={d}, nano_of_day={n}), exact value {e} ns (normalised split expected)"}
+        elif (d, n) != ((DMIN, 0) if e < INST_MIN_NS else (DMAX, 0)):
+            return {"key": "safe-offset-sentinel", "what": f"{op} {a}: got ({d},{n}) for an out-of-range result {e}"}
+        return None
     if op == "inst.fromunix":
         u, n = t[1], int(t[2])
         return _expect_inst(lambda: getattr(I, "from_unix_time_" + u)(n), n * UNIT_NANOS[u], f"Instant.from_unix_time_{u}({n})")
@@ -380,7 +407,7 @@ def gen_ops(ctx, n):
         a = gen_dur(rng)
         ops.append(f"dur.neg {a[0]} {a[1]}")
         ops.append(f"dur.acc {a[0]} {a[1]}")
-        ops.append(f"dur.small {a[0]} {a[1]} {rng.choice([0, 1, -1, NPD, -NPD, NPD + 1, -NPD - 1, rng.randint(-NPD, NPD)])}")
+        ops.append(f"dur.small {a[0]} {a[1]} {rng.choice([0, 1, -1, NPD, -NPD, NPD + 1, -NPD - 1, rng.randint(-NPD, NPD), NPD - a[1], a[1] - NPD, -a[1], a[1]])}")
     for _ in range(n // 10):
         a = split(gen_ns(rng, -10**18, 10**18)) if rng.random() < 0.7 else gen_dur(rng)
         k = rng.choice([0, 1, -1, 2, -2, 3, 7, -7, 1000, 86400, rng.randint(-10**6, 10**6), rng.randint(-10**12, 10**12)])
@@ -399,6 +426,9 @@ def gen_ops(ctx, n):
         ops.append(f"inst.plusticks {i[0]} {i[1]} {gen_ns(rng, -10**22, 10**22) // 100}")
         ops.append(f"inst.plusnanos {i[0]} {i[1]} {gen_ns(rng, -10**22, 10**22)}")
         o = rng.choice([0, 1, -1, 64800, -64800, rng.randint(-64800, 64800)])
+        if rng.random() < 0.3:  # local time + offset lands exactly on a day boundary (carry paths)
+            o = max(-64800, min(64800, rng.randint(-18, 18) * 3600 + rng.choice([0, 0, 1800, -1800])))
+            i = (i[0], (-o * 10**9) % NPD if rng.random() < 0.5 else (o * 10**9) % NPD)
         ii = i if rng.random() < 0.6 else rng.choice([(IMIN, rng.randint(0, NPD - 1)), (IMAX, rng.randint(0, NPD - 1)), (IMIN, 0), (IMAX, NPD - 1), (DMIN, 0), (DMAX, 0)])
         ops.append(f"inst.safeplus {ii[0]} {ii[1]} {o}")
         ops.append(f"linst.safeminus {ii[0]} {ii[1]} {o}")
